@@ -38,6 +38,9 @@ def gen(rng, k):
     p = {"ref": ref, "L": L, "t": t, "noise": [0.0, 0.5][k % 2],
          "center": None if k % 3 == 0 else rng.uniform(-40, 40, 2),
          "w": None if k % 4 == 0 else rng.uniform(0.1, 10, n), "seed": int(rng.integers(1 << 30))}
+    if p["w"] is not None and (k // 3) % 4 == 3:
+        # the same relative weights at a tiny / huge overall magnitude (a common factor does not change the optimum)
+        p["w"] = p["w"] * float(rng.choice([1e-9, 1e-12, 1e6]))
     # reference positions kept as integer pixel positions (integer dtype) by the caller, fractional centre
     p["int_ref"] = (k // 12) % 3 == 1 and np.linalg.matrix_rank(np.hstack([np.round(ref), np.ones((n, 1))]), tol=1e-3) == 3
     return p
@@ -98,6 +101,7 @@ def run_case(kind, p):
                         f"(centre {None if c is None else np.asarray(c).tolist()}, weights {'yes' if w is not None else 'no'})")
     else:
         ww = np.ones(len(ref)) if w is None else np.asarray(w) ** 2
+        ww = ww / ww.max()        # the optimum does not depend on a common factor of the weights; neither does this test
         best = float((ww * ((back - peaks) ** 2).sum(axis=1)).sum())
         rng = np.random.default_rng(p["seed"] + 1)
         for _ in range(40):
